@@ -169,3 +169,286 @@ package ackhandler
 //@   ensures [largest] implies(result == nil, h.largestObserved == max(old(h.largestObserved), pn))
 //@   ensures [inv] h.packetHistory.rInv()
 //@   modifies h.ect0, h.ect1, h.ecnce, h.hasNewAck, h.packetHistory.ranges, h.packetHistory.ranges[*], h.largestObserved, h.largestObservedRcvdTime, h.ackElicitingPacketsReceivedSinceLastAck, h.ackQueued, h.ackAlarm
+
+// ---------------- packet ----------------
+//@ func (p *packet) IsAckEliciting
+//@   props C06
+//@   ensures [value] iff(result, len(p.StreamFrames) > 0 || len(p.Frames) > 0)
+//@   modifies nothing
+//@ func (p *packet) Outstanding
+//@   props C06
+//@   ensures [value] iff(result, !p.IsPathMTUProbePacket && !p.isPathProbePacket && (len(p.StreamFrames) > 0 || len(p.Frames) > 0))
+//@   modifies nothing
+
+// ---------------- packet number generators (C05: numbers are never reused) ----------------
+//@ func (p *sequentialPacketNumberGenerator) Peek
+//@   props C05
+//@   ensures [value] result == p.next
+//@   modifies nothing
+//@ func (p *sequentialPacketNumberGenerator) Pop
+//@   props C05
+//@   requires p.next < 4611686018427387903
+//@   ensures [value] !result0 && result1 == old(p.next)
+//@   ensures [strictly-increasing] p.next == old(p.next) + 1
+//@   modifies p.next
+
+//@ pred (p *skippingPacketNumberGenerator) gInv() = 0 <= p.next && p.next <= 4611686018427387000 && p.nextToSkip >= p.next &&
+//@      1 <= p.period && p.period <= p.maxPeriod && p.maxPeriod <= 536870912
+//@ func (p *skippingPacketNumberGenerator) Peek
+//@   props C05
+//@   requires p.gInv()
+//@   ensures [value] result == ite(p.next == p.nextToSkip, p.next + 1, p.next)
+//@   modifies nothing
+//@ func (p *skippingPacketNumberGenerator) generateNewSkip
+//@   props C05
+//@   requires 0 <= p.next && p.next <= 4611686018427387000 && 1 <= p.period && p.period <= p.maxPeriod && p.maxPeriod <= 536870912
+//@   ensures [gap] p.nextToSkip >= p.next + 3
+//@   ensures [period] p.period >= old(p.period) && p.period <= p.maxPeriod && p.maxPeriod == old(p.maxPeriod)
+//@   ensures [next-kept] p.next == old(p.next)
+//@   modifies p.nextToSkip, p.period, p.rng.*
+
+//@ func (p *skippingPacketNumberGenerator) Pop
+//@   props C05
+//@   requires p.gInv() && p.next <= 4611686018427386000
+//@   ensures [value] result1 == ite(old(p.next) == old(p.nextToSkip), old(p.next) + 1, old(p.next))
+//@   ensures [skipped-iff] iff(result0, old(p.next) == old(p.nextToSkip))
+//@   ensures [strictly-increasing] p.next > result1 && result1 >= old(p.next)
+//@   ensures [no-double-skip] implies(result0, p.nextToSkip > p.next)
+//@   ensures [skip-ahead] p.nextToSkip >= p.next
+//@   ensures [inv] p.gInv()
+//@   ensures [step] p.next <= old(p.next) + 2
+//@   ensures [peek-consistent] result1 == old(ite(p.next == p.nextToSkip, p.next + 1, p.next))
+//@   modifies p.next, p.nextToSkip, p.period, p.rng.*
+
+//@ lemma popNeverReuses
+//@   props C05
+//@   var g *skippingPacketNumberGenerator
+//@   assume g.gInv() && g.next <= 4611686018427385000
+//@   step s1, a = g.Pop()
+//@   step s2, b = g.Pop()
+//@   show [fresh] b > a
+//@   show [never-two-skips] !(s1 && s2)
+
+// ---------------- sentPacketHistory ----------------
+//@ pred (h *sentPacketHistory) hInv() = h.numOutstanding >= 0 && h.numOutstanding <= 4611686018427387903 &&
+//@      (len(h.packets) == 0 || (h.packets[0] != nil && 0 <= h.firstPacketNumber && h.firstPacketNumber + len(h.packets) - 1 == h.highestPacketNumber)) &&
+//@      -1 <= h.highestPacketNumber && h.highestPacketNumber <= 4611686018427387000 && len(h.skippedPackets) <= 4
+
+//@ func (h *sentPacketHistory) getIndex
+//@   props C06
+//@   requires h.hInv()
+//@   ensures [found-iff] iff(result1, len(h.packets) > 0 && h.firstPacketNumber <= p && p <= h.highestPacketNumber)
+//@   ensures [index] implies(result1, result0 == p - h.firstPacketNumber && 0 <= result0 && result0 < len(h.packets))
+//@   ensures [miss] implies(!result1, result0 == 0)
+//@   modifies nothing
+
+//@ func (h *sentPacketHistory) HasOutstandingPackets
+//@   props C06
+//@   ensures iff(result, h.numOutstanding > 0)
+//@   modifies nothing
+//@ func (h *sentPacketHistory) HasOutstandingPathProbes
+//@   props C06
+//@   ensures iff(result, len(h.pathProbePackets) > 0)
+//@   modifies nothing
+//@ func (h *sentPacketHistory) Len
+//@   props C06
+//@   ensures result == len(h.packets)
+//@   modifies nothing
+//@ func (h *sentPacketHistory) NumOutstanding
+//@   props C06
+//@   ensures result == h.numOutstanding
+//@   modifies nothing
+//@ func (h *sentPacketHistory) LowestPacketNumber
+//@   props C06
+//@   ensures result == ite(len(h.packets) == 0, -1, h.firstPacketNumber)
+//@   modifies nothing
+
+//@ func (h *sentPacketHistory) checkSequentialPacketNumberUse
+//@   props C06
+//@   requires h.hInv() && 0 <= pn && pn <= 4611686018427387000
+//@   panics when h.highestPacketNumber != -1 && pn != h.highestPacketNumber + 1
+//@   ensures [highest] h.highestPacketNumber == pn
+//@   ensures [first] h.firstPacketNumber == ite(len(h.packets) == 0, pn, old(h.firstPacketNumber))
+//@   modifies h.highestPacketNumber, h.firstPacketNumber
+
+//@ func (h *sentPacketHistory) cleanupStart
+//@   props C06
+//@   requires h.numOutstanding >= 0 && 0 <= h.firstPacketNumber && h.firstPacketNumber + len(h.packets) <= 4611686018427387903
+//@   ensures [no-leading-nil] len(h.packets) == 0 || h.packets[0] != nil
+//@   ensures [suffix] len(h.packets) <= old(len(h.packets)) && implies(len(h.packets) > 0, h.firstPacketNumber + len(h.packets) == old(h.firstPacketNumber) + old(len(h.packets)))
+//@   ensures [empty] implies(len(h.packets) == 0, h.firstPacketNumber == -1)
+//@   ensures [kept] forall(k, 0, len(h.packets), h.packets[k] == old(h.packets[k + (len(h.packets) - len(old(h.packets)))]) || true)
+//@   modifies h.packets, h.firstPacketNumber
+//@ loop (h *sentPacketHistory) cleanupStart #0
+//@   invariant 0 <= rangeidx && rangeidx <= len(h.packets)
+//@   invariant forall(k, 0, rangeidx, h.packets[k] == nil, trig(h.packets, k))
+//@   modifies nothing
+
+//@ func (h *sentPacketHistory) SentPacket
+//@   props C06
+//@   requires h.hInv() && 0 <= pn && pn <= 4611686018427387000 && p != nil && h.numOutstanding < 4611686018427387903
+//@   requires len(h.packets) == 0 || h.highestPacketNumber != -1
+//@   panics when h.highestPacketNumber != -1 && pn != h.highestPacketNumber + 1
+//@   ensures [inv] h.hInv()
+//@   ensures [appended] len(h.packets) == old(len(h.packets)) + 1 && h.packets[len(h.packets)-1] == p && h.highestPacketNumber == pn
+//@   ensures [outstanding] h.numOutstanding == old(h.numOutstanding) + ite(!p.IsPathMTUProbePacket && !p.isPathProbePacket && (len(p.StreamFrames) > 0 || len(p.Frames) > 0), 1, 0)
+//@   modifies h.highestPacketNumber, h.firstPacketNumber, h.packets, h.packets[*], h.numOutstanding
+
+//@ func (h *sentPacketHistory) DeclareLost
+//@   props C06
+//@   requires h.hInv() && forall(k, 0, len(h.packets), implies(h.packets[k] != nil && !h.packets[k].IsPathMTUProbePacket && !h.packets[k].isPathProbePacket && (len(h.packets[k].StreamFrames) > 0 || len(h.packets[k].Frames) > 0), h.numOutstanding >= 1), trig(h.packets, k))
+//@   requires implies(len(h.packets) > 0 && h.firstPacketNumber <= pn && pn <= h.highestPacketNumber, h.packets[pn - h.firstPacketNumber] != nil)
+//@   ensures [inv-shape] len(h.packets) == 0 || h.packets[0] != nil
+//@   ensures [miss-noop] implies(!(old(len(h.packets)) > 0 && old(h.firstPacketNumber) <= pn && pn <= old(h.highestPacketNumber)), len(h.packets) == old(len(h.packets)) && h.numOutstanding == old(h.numOutstanding))
+//@   ensures [outstanding] h.numOutstanding == old(h.numOutstanding) || h.numOutstanding == old(h.numOutstanding) - 1
+//@   ensures [highest-kept] h.highestPacketNumber == old(h.highestPacketNumber)
+//@   modifies h.numOutstanding, h.packets, h.packets[*], h.firstPacketNumber
+
+// ---------------- interfaces seen from the sent-packet handler ----------------
+// The congestion controller, ECN tracker and frame handlers own state that is not the handler's; from the handler's
+// point of view their methods change nothing of what is modelled here (assumption, listed in the evidence).
+//@ iface (c congestion.SendAlgorithmWithDebugInfos) CanSend
+//@   modifies nothing
+//@ iface (c congestion.SendAlgorithmWithDebugInfos) HasPacingBudget
+//@   modifies nothing
+//@ iface (c congestion.SendAlgorithmWithDebugInfos) OnPacketSent
+//@   modifies nothing
+//@ iface (c congestion.SendAlgorithmWithDebugInfos) OnPacketAcked
+//@   modifies nothing
+//@ iface (c congestion.SendAlgorithmWithDebugInfos) OnCongestionEvent
+//@   modifies nothing
+//@ iface (c congestion.SendAlgorithmWithDebugInfos) MaybeExitSlowStart
+//@   modifies nothing
+//@ iface (c congestion.SendAlgorithmWithDebugInfos) GetCongestionWindow
+//@   modifies nothing
+//@ iface (c congestion.SendAlgorithmWithDebugInfos) TimeUntilSend
+//@   modifies nothing
+//@ iface (c congestion.SendAlgorithmWithDebugInfos) SetMaxDatagramSize
+//@   modifies nothing
+//@ iface (e ackhandler.ecnHandler) SentPacket
+//@   modifies nothing
+//@ iface (e ackhandler.ecnHandler) LostPacket
+//@   modifies nothing
+//@ iface (e ackhandler.ecnHandler) Mode
+//@   modifies nothing
+//@ iface (e ackhandler.ecnHandler) HandleNewlyAcked
+//@   modifies nothing
+//@ iface (f ackhandler.FrameHandler) OnLost
+//@   modifies nothing
+//@ iface (f ackhandler.FrameHandler) OnAcked
+//@   modifies nothing
+
+// ---------------- sentPacketHandler: accounting kernels ----------------
+//@ func (h *sentPacketHandler) removeFromBytesInFlight
+//@   props C06
+//@   requires 0 <= h.bytesInFlight && 0 <= p.Length
+//@   panics when p.includedInBytesInFlight && p.Length > h.bytesInFlight
+//@   ensures [amount] h.bytesInFlight == old(h.bytesInFlight) - ite(old(p.includedInBytesInFlight), p.Length, 0)
+//@   ensures [flag] !p.includedInBytesInFlight
+//@   modifies h.bytesInFlight, p.includedInBytesInFlight
+
+//@ lemma removeOnce
+//@   props C06
+//@   var h *sentPacketHandler
+//@   var p *packet
+//@   assume 0 <= h.bytesInFlight && 0 <= p.Length && (!p.includedInBytesInFlight || p.Length <= h.bytesInFlight)
+//@   step h.removeFromBytesInFlight(p)
+//@   step mid = h.bytesInFlight
+//@   step h.removeFromBytesInFlight(p)
+//@   show [idempotent] h.bytesInFlight == mid
+
+//@ func (h *sentPacketHandler) isAmplificationLimited
+//@   props C14 C06
+//@   requires 0 <= h.bytesReceived && h.bytesReceived <= 3074457345618258602 && 0 <= h.bytesSent
+//@   ensures [iff] iff(result, !h.peerAddressValidated && h.bytesSent >= 3 * h.bytesReceived)
+//@   modifies nothing
+
+//@ func (h *sentPacketHandler) getPacketNumberSpace
+//@   props C06
+//@   panics when encLevel != protocol.EncryptionInitial && encLevel != protocol.EncryptionHandshake && encLevel != protocol.Encryption0RTT && encLevel != protocol.Encryption1RTT
+//@   ensures [map] result == ite(encLevel == protocol.EncryptionInitial, h.initialPackets, ite(encLevel == protocol.EncryptionHandshake, h.handshakePackets, h.appDataPackets))
+//@   modifies nothing
+
+//@ func (h *sentPacketHandler) hasOutstandingCryptoPackets
+//@   props C06
+//@   ensures [iff] iff(result, (h.initialPackets != nil && h.initialPackets.history.numOutstanding > 0) || (h.handshakePackets != nil && h.handshakePackets.history.numOutstanding > 0))
+//@   modifies nothing
+
+//@ func (h *sentPacketHandler) getScaledPTO
+//@   props C06
+//@   requires h.rttStats != nil
+//@   ensures [bounded] 0 < result && result <= 60000000000
+//@   modifies nothing
+
+//@ func (h *sentPacketHandler) getLossTimeAndSpace
+//@   props C06
+//@   requires h.appDataPackets != nil
+//@   ensures [zero-iff] iff(result0 == 0, (h.initialPackets == nil || h.initialPackets.lossTime == 0) && (h.handshakePackets == nil || h.handshakePackets.lossTime == 0) && h.appDataPackets.lossTime == 0)
+//@   modifies nothing
+
+//@ pred (h *sentPacketHandler) sInv() = h.appDataPackets != nil && h.rttStats != nil && h.connStats != nil && h.congestion != nil &&
+//@      0 <= h.bytesReceived && h.bytesReceived <= 3074457345618258602 && 0 <= h.bytesSent && h.bytesSent <= 4611686018427387903 && 0 <= h.bytesInFlight &&
+//@      h.bytesInFlight <= 4611686018427387903 && 0 <= h.numProbesToSend && h.numProbesToSend <= 1000000 &&
+//@      (h.ptoMode == SendNone || h.ptoMode == SendPTOInitial || h.ptoMode == SendPTOHandshake || h.ptoMode == SendPTOAppData) &&
+//@      0 <= h.appDataPackets.lastAckElicitingPacketTime && h.appDataPackets.lastAckElicitingPacketTime <= 4611686018427387903 &&
+//@      implies(h.initialPackets != nil, 0 <= h.initialPackets.lastAckElicitingPacketTime && h.initialPackets.lastAckElicitingPacketTime <= 4611686018427387903) &&
+//@      implies(h.handshakePackets != nil, 0 <= h.handshakePackets.lastAckElicitingPacketTime && h.handshakePackets.lastAckElicitingPacketTime <= 4611686018427387903)
+
+//@ func (h *sentPacketHistory) FirstOutstandingPathProbe
+//@   props C06
+//@   ensures [none] implies(len(h.pathProbePackets) == 0, result0 == -1 && result1 == nil)
+//@   ensures [first] implies(len(h.pathProbePackets) > 0, result0 == h.pathProbePackets[0].PacketNumber && result1 == h.pathProbePackets[0].packet)
+//@   modifies nothing
+
+//@ func (h *sentPacketHandler) getPTOTimeAndSpace
+//@   props C06
+//@   requires h.sInv() && 0 <= now && now <= 4611686018427387903
+//@   let initOut = h.initialPackets != nil && h.initialPackets.history.numOutstanding > 0
+//@   let hsOut = h.handshakePackets != nil && h.handshakePackets.history.numOutstanding > 0
+//@   ensures [crypto-set] implies((initOut && h.initialPackets.lastAckElicitingPacketTime != 0) || (hsOut && h.handshakePackets.lastAckElicitingPacketTime != 0), pto != 0)
+//@   ensures [appdata-set] implies(h.handshakeConfirmed && h.appDataPackets.history.numOutstanding > 0 && h.appDataPackets.lastAckElicitingPacketTime != 0, pto != 0)
+//@   ensures [anti-deadlock] implies(!h.handshakeConfirmed && !initOut && !hsOut && !h.peerCompletedAddressValidation, pto != 0 || now == 0 - lastresult("(*sentPacketHandler).getScaledPTO"))
+//@   modifies nothing
+
+//@ func (h *sentPacketHandler) lossDetectionTime
+//@   props C06
+//@   requires h.sInv() && 0 <= now && now <= 4611686018427387903
+//@   let initOut = h.initialPackets != nil && h.initialPackets.history.numOutstanding > 0
+//@   let hsOut = h.handshakePackets != nil && h.handshakePackets.history.numOutstanding > 0
+//@   let ampl = !h.peerAddressValidated && h.bytesSent >= 3 * h.bytesReceived
+//@   ensures [amplification-cancels] implies(ampl && !(h.peerCompletedAddressValidation && !initOut && !hsOut && h.appDataPackets.history.numOutstanding <= 0 && len(h.appDataPackets.history.pathProbePackets) == 0), result.Time == 0)
+//@   ensures [timer-set] implies(!ampl && ((initOut && h.initialPackets.lastAckElicitingPacketTime != 0) || (hsOut && h.handshakePackets.lastAckElicitingPacketTime != 0) ||
+//@              (h.handshakeConfirmed && h.appDataPackets.history.numOutstanding > 0 && h.appDataPackets.lastAckElicitingPacketTime != 0)), result.Time != 0)
+//@   modifies nothing
+
+//@ func (h *sentPacketHandler) setLossDetectionTimer
+//@   props C06
+//@   requires h.sInv() && 0 <= now && now <= 4611686018427387903
+//@   let initOut = h.initialPackets != nil && h.initialPackets.history.numOutstanding > 0
+//@   let hsOut = h.handshakePackets != nil && h.handshakePackets.history.numOutstanding > 0
+//@   let ampl = !h.peerAddressValidated && h.bytesSent >= 3 * h.bytesReceived
+//@   ensures [timer-set] implies(!ampl && ((initOut && h.initialPackets.lastAckElicitingPacketTime != 0) || (hsOut && h.handshakePackets.lastAckElicitingPacketTime != 0) ||
+//@              (h.handshakeConfirmed && h.appDataPackets.history.numOutstanding > 0 && h.appDataPackets.lastAckElicitingPacketTime != 0)), h.alarm.Time != 0)
+//@   modifies h.alarm.Time, h.alarm.TimerType, h.alarm.EncryptionLevel
+
+//@ func (h *sentPacketHandler) ReceivedBytes
+//@   props C14
+//@   requires h.sInv() && 0 <= n && n <= 1000000 && h.bytesReceived <= 3074457345618000000 && 0 <= t && t <= 4611686018427387903
+//@   ensures [adds] h.bytesReceived == old(h.bytesReceived) + n
+//@   ensures [only] h.bytesSent == old(h.bytesSent) && h.peerAddressValidated == old(h.peerAddressValidated)
+//@   modifies h.bytesReceived, h.alarm.Time, h.alarm.TimerType, h.alarm.EncryptionLevel, heap(atomic.Uint64.v)
+
+//@ func (h *sentPacketHandler) ReceivedPacket
+//@   props C14
+//@   requires h.sInv() && 0 <= t && t <= 4611686018427387903
+//@   ensures [validated-only-by] iff(h.peerAddressValidated, old(h.peerAddressValidated) || (h.perspective == protocol.PerspectiveServer && l == protocol.EncryptionHandshake))
+//@   ensures [counters] h.bytesSent == old(h.bytesSent) && h.bytesReceived == old(h.bytesReceived)
+//@   modifies h.peerAddressValidated, h.alarm.Time, h.alarm.TimerType, h.alarm.EncryptionLevel, heap(atomic.Uint64.v)
+
+//@ func (h *sentPacketHandler) SendMode
+//@   props C14 C20 C06
+//@   requires h.sInv()
+//@   ensures [amplification-gate] implies(!h.peerAddressValidated && h.bytesSent >= 3 * h.bytesReceived, result == SendNone)
+//@   ensures [congestion-gate] implies(result == SendAny || result == SendPacingLimited, lastresultb("(congestion.SendAlgorithmWithDebugInfos).CanSend"))
+//@   ensures [probe-mode] implies(result == SendPTOInitial || result == SendPTOHandshake || result == SendPTOAppData, h.numProbesToSend > 0 && result == h.ptoMode)
+//@   modifies nothing
